@@ -23,7 +23,7 @@ var Registry = map[string]Spec{
 	"C02": {Want: build.Want{WorkerInst: true}, Run: RunC02},
 	"C03": {Want: build.Want{StockCLIs: true, InstCLIs: true, WorkerInst: true}, Run: RunC03},
 	"C08": {Want: build.Want{StockCLIs: true, InstCLIs: true}, Run: RunC08},
-	"C09": {Want: build.Want{StockCLIs: true, WorkerInst: true, WorkerRace: true}, Run: RunC09},
+	"C09": {Want: build.Want{StockCLIs: true, WorkerInst: true, WorkerRace: true, WorkerStock: true}, Run: RunC09},
 	"C20": {Want: build.Want{StockCLIs: true, InstCLIs: true, Stub: true}, Run: RunC20},
 }
 
